@@ -27,6 +27,8 @@ const (
 	KReturn    // OP_RETURN (unspendable)
 	KNonStd    // odd but spendable-by-nobody script
 	KP2TRS     // taproot output spent through the script path (tree of 1, 2 or 4 leaves; leaf = <key> CHECKSIG)
+	KMultiSep  // bare: 1 <A> 1 CHECKMULTISIGVERIFY CODESEPARATOR 1 <B> 1 CHECKMULTISIG - two signatures over different script codes
+	KWshMultiSep // the same script as a P2WSH witness script (BIP143 script code from the last executed separator)
 	NKinds
 )
 
@@ -178,6 +180,11 @@ func (w *Wallet) Script(kind, i int) []byte {
 		pk = append([]byte{0x51, 0x20}, x...)
 	case KP2TRS:
 		pk = append([]byte{0x51, 0x20}, w.tapTree(i).out...)
+	case KMultiSep:
+		pk = w.multiSep(i)
+	case KWshMultiSep:
+		sh := sha256.Sum256(w.multiSep(i))
+		pk = append([]byte{0x00, 0x20}, sh[:]...)
 	case KTrue:
 		pk = []byte{0x51}
 	case KP2SHTrue:
@@ -191,7 +198,14 @@ func (w *Wallet) Script(kind, i int) []byte {
 	default:
 		// odd scripts nobody spends; several are not even parseable to the end (legal as an output script:
 		// everything that walks them - sigop counting, standardness tests, address indexing - has to cope)
-		switch i % 9 {
+		switch i % 11 {
+		case 9:
+			// witness version 1..16 with a 20-byte program: the bytes of this key's P2WPKH address, another script
+			pk = append([]byte{0x51 + h[1]%16, 0x14}, h[:]...)
+		case 10:
+			// witness version 2..16 with a 32-byte program: the bytes of this key's taproot output, another script
+			_, x := w.tapKey(i)
+			pk = append([]byte{0x52 + h[1]%15, 0x20}, x...)
 		case 0:
 			pk = append([]byte{0x63, 0x67, 0x68, 0x75}, push(h[:5])...) // IF ELSE ENDIF DROP <5 bytes>
 		case 1:
@@ -214,6 +228,15 @@ func (w *Wallet) Script(kind, i int) []byte {
 	}
 	w.scripts[hex.EncodeToString(pk)] = spendInfo{kind, i}
 	return pk
+}
+
+// multiSep is the script of KMultiSep / KWshMultiSep for key i (second key: i+1).
+func (w *Wallet) multiSep(i int) []byte {
+	a, b := w.pub[i%len(w.pub)], w.pub[(i+1)%len(w.pub)]
+	s := append([]byte{0x51}, push(a)...)
+	s = append(s, 0x51, 0xaf, 0xab, 0x51)
+	s = append(s, push(b)...)
+	return append(s, 0x51, 0xae)
 }
 
 // Spendable reports whether the wallet knows how to spend pk, and its kind.
@@ -568,6 +591,45 @@ func (w *Wallet) Sign(t *Tx, i int, spent []Coin, ht byte, corrupt int) string {
 			in.Wit = append(in.Wit, annex)
 		}
 		in.ScriptSig = nil
+	case KMultiSep, KWshMultiSep:
+		// the first CHECKMULTISIG signs the whole script (legacy: without the separator), the second one only
+		// what follows the separator; a corruption goes into the second signature
+		if corrupt == CTapUndefHT || corrupt == CTapSingleOOR {
+			corrupt, valid = COk, true
+		}
+		full := w.multiSep(si.Key)
+		cut := bytes.IndexByte(full[36:], 0xab) + 36 // (the first 36 bytes are OP_1 and the push of key A)
+		tail := full[cut+1:]
+		mk := func(k int, d [32]byte, bad bool) []byte {
+			r, s, _ := btc.EcdsaSign(w.priv[k%len(w.priv)], d[:])
+			sig := append(derSig(r, s), ht)
+			if bad && corrupt == CFlipBit {
+				sig[len(sig)-3] ^= 0x10
+			}
+			return sig
+		}
+		kb := si.Key + 1
+		if corrupt == CWrongKey {
+			kb++
+		}
+		var sa, sb []byte
+		if si.Kind == KMultiSep {
+			kind = "legacy"
+			if corrupt == CWrongAmount {
+				corrupt = CFlipBit
+			}
+			noSep := append(append([]byte{}, full[:cut]...), tail...)
+			sa = mk(si.Key, LegacyDigest(t, i, noSep, uint32(ht)), false)
+			sb = mk(kb, LegacyDigest(t, i, tail, uint32(ht)), true)
+			in.ScriptSig = append(append(append([]byte{0x00}, push(sb)...), 0x00), push(sa)...)
+			in.Wit = nil
+		} else {
+			kind = "bip143"
+			sa = mk(si.Key, SegwitDigest(t, i, full, coin.Value, uint32(ht)), false)
+			sb = mk(kb, SegwitDigest(t, i, tail, amount, uint32(ht)), true)
+			in.ScriptSig = nil
+			in.Wit = [][]byte{{}, sb, {}, sa, full}
+		}
 	case KTrue:
 		in.ScriptSig, in.Wit = nil, nil
 		valid = true
